@@ -16,17 +16,11 @@ from core import Case, guard, COQ, VERIF
 
 ID = "C17"
 PROOF_FILE = "Properties/C17.v"
-THEOREMS = ["C17_arcless", "C17_regular", "C17_le_four", "C17_upper_certificate", "C17_lower_certificate"]
-CONE = ["Proofs/CapacityProofs.v", "Proofs/CapacityFloatProofs.v", "Capacity.v", "CapacitySpec.v", "Graph.v", "GraphSpec.v", "Py.v"]
+THEOREMS = ["C17_arcless", "C17_regular", "C17_le_four", "C17_upper_certificate", "C17_lower_certificate", "C17_terminates",
+            "C17_result_counts"]
+CONE = ["Proofs/CapacityProofs.v", "Proofs/CapacityFloatProofs.v", "Proofs/CapacityTermProofs.v", "Capacity.v", "CapacitySpec.v", "Graph.v", "GraphSpec.v", "Py.v"]
 MODEL_FUNCTIONS = ["approximate_capacity"]
-# Print Assumptions lists Coq's primitive float / int63 declarations (kernel primitives) and, for C17_le_four only, the
-# standard library's specification axioms of primitive floats and the axioms of the Reals library that Flocq uses
-ALLOWED_AXIOMS = ["float", "int", "add", "sub", "mul", "div", "abs", "opp", "ltb", "leb", "eqb", "of_uint63", "normfr_mantissa",
-                  "ldshiftexp", "frshiftexp", "add_spec", "mul_spec", "div_spec", "abs_spec", "ltb_spec", "leb_spec",
-                  "SF2Prim_Prim2SF", "Prim2SF_valid", "Prim2SF_SF2Prim", "ClassicalDedekindReals.sig_not_dec",
-                  "ClassicalDedekindReals.sig_forall_dec", "FunctionalExtensionality.functional_extensionality_dep",
-                  "Classical_Prop.classic"]
-ALLOWED_AXIOM_PATTERNS = [r"PrimInt63\.[a-z0-9_]+", r"PrimFloat\.[a-z0-9_]+", r"Uint63\.[a-z0-9_]+"]
+from axioms import FLOAT_ALLOWED as ALLOWED_AXIOMS, FLOAT_PATTERNS as ALLOWED_AXIOM_PATTERNS  # noqa
 RULE = ("arc subsets, generated coding graphs, d-regular graphs (d = 1..4) and arc-less graphs of order 1..3 (thorough 4); "
         "repeats 1 (deterministic start) and 2..6 (NumPy RNG seeded, the same initial vectors are handed to the model); "
         "tolerance levels -10 / -6 / -3; maximum_iteration 500 or small (2, 5, 20: median fallback); process=True so that "
@@ -71,11 +65,18 @@ def payloads(rng, tier):
     yield "capacity", {"rows": [[-1] * 4] * 16, "repeats": 3, "seed": 1, "tol": -10, "maxit": 500, "kind": "arcless"}
     for _ in range(n):
         k = rng.randint(1, kmax)
-        kind = rng.choice(["subset", "subset", "coding", "coding", "regular", "complete"])
+        kind = rng.choice(["subset", "subset", "coding", "coding", "regular", "complete", "fullrows", "induced"])
         if kind == "subset":
             rows = gen.arc_subset(rng, k, keep=rng.choice([0.3, 0.5, 0.7, 0.9]))
         elif kind == "coding":
             rows = gen.coding_graph(rng, k)[2]
+        elif kind == "fullrows":
+            # every row that has an arc has all four, but many arcs lead to rows without arcs
+            d = rng.randint(1, 3)
+            reg = regular_graph(rng, k, d)
+            rows = [gen.latters(v, k) if any(x >= 0 for x in reg[v]) else [-1] * 4 for v in range(4 ** k)]
+        elif kind == "induced":
+            rows = gen.induced(k, gen.random_mask(rng, k, rng.choice([0.3, 0.5, 0.7])))
         elif kind == "regular":
             rows = regular_graph(rng, k, rng.randint(1, 4))
         else:
@@ -223,6 +224,7 @@ def zlist(l):
 
 def MODEL_RUNNER(calls):
     """evaluate the cases inside coqc; returns answers in the same form as enc() above"""
+    os.makedirs(os.path.join(VERIF, "work"), exist_ok=True)
     work = tempfile.mkdtemp(prefix="c17-", dir=os.path.join(VERIF, "work"))
     chunks = [calls[i:i + 40] for i in range(0, len(calls), 40)]
     files = []
